@@ -73,7 +73,11 @@ def other(expl, claim, bounded, extra_note=""):
 PLAN["C01"] = other(
     "Deductive: the numeric codec kernel numToStr o strToIntOrFloat is proved (on the Repr/Dec abstraction of repr() and "
     "%d) to return the timestamp bit-identically or, within 1e-14 relative of an integer, that integer, never to "
-    "raise, and to be a fixed point of re-saving. Bounded: full save/open round trip through the four formats.",
+    "raise, and to be a fixed point of re-saving; the plain-json conversion pair (_downconvertDictionaryForJson then "
+    "_upconvertDictionaryFromJson, <= 3 tiers, names / spans / entries symbolic) is proved to keep names, order, types "
+    "and entries and to replace every tier span by the textgrid span (the stated exemption); _prepTgForSaving is proved "
+    "to write entries verbatim (sorted) with blank filling off and to make a span override the file's span. "
+    "Bounded: full save/open round trip through the four formats.",
     "Numbers survive the text codec exactly (proved, all x in [0,1e15]); the whole-file round trip holds on the stated "
     "bounded domain (labels with quotes/newlines/keywords, 9 critical numbers, 4 formats x 2 x 2 flags).",
     ["c01_roundtrip"], "; the regex/offset text readers are outside any solver's reach here (DESIGN 1)")
@@ -81,11 +85,14 @@ PLAN["C02"] = other(
     "Bounded: files written by save are parsed by an independent tokenizer written from Praat's format page and the "
     "README schemas; sizes, quote doubling, partition property, four formats agree; the spec writer/reader pair is "
     "itself checked. Deductive: numeric codec kernel (shared with C01); _fillInBlanks proved to produce an ascending, "
-    "gap-free, overlap-free partition of the requested span.",
+    "gap-free, overlap-free partition of the requested span; _prepTgForSaving (blank filling on, <= 2 interval tiers) "
+    "proved to hand the writers tiers that each tile the file span.",
     "Written files are well-formed and the four formats agree on the stated bounded domain; numbers are printed "
     "decodably (proved kernel).", ["c02_wellformed", "spec_pair_selfcheck"])
 PLAN["C03"] = other(
-    "Deductive: numeric decode kernel; _removeBlanks omits exactly the empty-labelled entries. Bounded: files from "
+    "Deductive: numeric decode kernel; _removeBlanks omits exactly the empty-labelled entries; the plain-json "
+    "up-conversion after down-conversion returns names, order, types and entries with the textgrid span on every tier "
+    "(<= 3 tiers). Bounded: files from "
     "the independent writers (long, short, ELAN-long, two JSON) x encodings x newlines x flags opened by praatio.",
     "The reader returns what a spec-conformant file encodes on the stated bounded domain; blank removal and number "
     "decoding are proved.", ["c03_reader"])
@@ -93,7 +100,12 @@ PLAN["C04"] = other(
     "Deductive: _fillInBlanks (closed-form fold rule for the carried prevEnd) is proved, for every sorted disjoint "
     "tier and every min/max override, to return a gap-free, positive-length, sorted chain from the requested start to "
     "the requested end, and to raise ParsingError exactly when the first entry starts before / the last ends after the "
-    "requested span. Bounded: sweep of sliver positions/lengths, thresholds, overrides and formats, files read back "
+    "requested span. _prepTgForSaving itself (the real _fillInBlanks executed at its call site; tier COUNT enumerated, "
+    "<= 2) is proved: a min/max override becomes the file's span; with blank filling off, or for point tiers, entries "
+    "are handed to the writers verbatim in time order with names, classes and tier spans untouched; with blank filling "
+    "on and the threshold disabled every interval tier tiles the file span with positive-length intervals, and "
+    "ParsingError is raised exactly when an entry of an interval tier lies outside the requested span. "
+    "Bounded: sweep of sliver positions/lengths, thresholds, overrides and formats, files read back "
     "with the independent reader (absorption of slivers, verbatim writing without blank filling, point tiers).",
     "Blank filling yields a partition of the requested span and rejects entries outside it (proved for interval "
     "tiers); sliver absorption and the remaining clauses on the stated bounded domain.",
@@ -450,4 +462,16 @@ CANARIES = [
      "old": "        return entry[-1] != \"\"", "new": "        return entry[0] != \"\""},
     {"name": "ctor-no-sort", "props": ["C05"], "file": IT, "target": ITC + ".__init__",
      "old": "    processedEntries.sort()\n    return processedEntries", "new": "    return processedEntries"},
+    {"name": "json-upconvert-span", "props": ["C01", "C03"], "file": "praatio/utilities/textgrid_io.py",
+     "target": "spec.harness.json_down_up",
+     "old": "\"xmax\": tgAsDict[\"end\"],\n                \"entries\"", "new": "\"xmax\": tgAsDict[\"start\"],\n                \"entries\"",
+     "config": ["k=2"]},
+    {"name": "prep-override-max", "props": ["C04", "C01"], "file": "praatio/utilities/textgrid_io.py",
+     "target": "praatio.utilities.textgrid_io._prepTgForSaving",
+     "old": "        tg[\"xmax\"] = maxTimestamp", "new": "        tg[\"xmax\"] = minTimestamp",
+     "config": ["k=1,blanks=False,minTimestamp=sym,maxTimestamp=sym"]},
+    {"name": "prep-fill-wrong-bound", "props": ["C04", "C02"], "file": "praatio/utilities/textgrid_io.py",
+     "target": "praatio.utilities.textgrid_io._prepTgForSaving#fill",
+     "old": "_fillInBlanks(tier, \"\", minTimestamp, maxTimestamp)", "new": "_fillInBlanks(tier, \"\", minTimestamp, tier[\"xmax\"])",
+     "config": ["k=1,minTimestamp=sym,maxTimestamp=sym"]},
 ]
